@@ -61,6 +61,10 @@ struct Scn {
     /// same write as the first (its handler is not gated): bytes of a following request are
     /// already in the server's read buffer while the first one is in flight at shutdown
     pipe: bool,
+    /// shutdown is requested by dropping the `HttpServer` instead of calling `close()`;
+    /// the result reported for "the closer" is that of a `wait_for_shutdown()` future
+    /// taken immediately before the drop
+    by_drop: bool,
 }
 
 impl Scn {
@@ -89,10 +93,11 @@ impl Scn {
                 .join("+")
         };
         format!(
-            "inflight={},big={},pipe={},noticed={},idle={}/{},half={},waiters={}/{}/{}",
+            "inflight={},big={},pipe={},bydrop={},noticed={},idle={}/{},half={},waiters={}/{}/{}",
             inf,
             self.big,
             self.pipe as u8,
+            self.by_drop as u8,
             self.wait_noticed as u8,
             self.idle_keepalive,
             self.idle_fresh,
@@ -337,10 +342,17 @@ fn run_scenario(rt: &Arc<tokio::runtime::Runtime>, id: &str, sc: &Scn) -> String
 
     // ---- C. close ---------------------------------------------------------------
     ctx.log(Ev::CloseRequested);
+    let by_drop = sc.by_drop;
     let close_task = {
         let (ctx, released) = (ctx.clone(), released.clone());
         rt.spawn(async move {
-            let res = server.close().await;
+            let res = if by_drop {
+                let w = server.wait_for_shutdown();
+                drop(server);
+                w.await
+            } else {
+                server.close().await
+            };
             ctx.log(Ev::WaiterReleased(0, res.is_ok()));
             released.fetch_add(1, Ordering::SeqCst);
             res
@@ -738,7 +750,7 @@ fn main() {
         k += 1;
         v.push((format!("{}{}", tag, k), s));
     };
-    let base = |mode| Scn { mode, inflight: vec![], wait_noticed: false, idle_keepalive: 0, idle_fresh: 0, half_sent: false, waiters: [1, 1, 1], big: 0, pipe: false };
+    let base = |mode| Scn { mode, inflight: vec![], wait_noticed: false, idle_keepalive: 0, idle_fresh: 0, half_sent: false, waiters: [1, 1, 1], big: 0, pipe: false, by_drop: false };
     // 1. systematic
     for &m in &modes {
         // nothing in flight
@@ -752,6 +764,9 @@ fn main() {
             // a second request already in the server's read buffer while the first is in flight
             add(&mut scenarios, "s", Scn { inflight: vec![(rel, Client::Stays, false)], pipe: true, ..base(m) });
             add(&mut scenarios, "s", Scn { inflight: vec![(rel, Client::Stays, false), (Release::After, Client::Stays, false)], pipe: true, idle_keepalive: 1, ..base(m) });
+            // the server handle is dropped instead of closed, with waiters alive
+            add(&mut scenarios, "s", Scn { inflight: vec![(rel, Client::Stays, false)], by_drop: true, ..base(m) });
+            add(&mut scenarios, "s", Scn { inflight: vec![(rel, Client::Stays, false), (Release::After, Client::Leaves(How::Rst), false)], by_drop: true, idle_keepalive: 1, waiters: [2, 1, 1], ..base(m) });
             // a large response to a slow reader, still being written when shutdown is requested
             add(&mut scenarios, "s", Scn { inflight: vec![(rel, Client::Stays, false)], big: 6 << 20, ..base(m) });
             add(&mut scenarios, "s", Scn { inflight: vec![(rel, Client::Stays, false), (Release::After, Client::Stays, false), (rel, Client::Leaves(How::Rst), false)], big: 3 << 20, idle_keepalive: 1, ..base(m) });
@@ -804,6 +819,7 @@ fn main() {
                 waiters: [rng.below(4) as usize, rng.below(4) as usize, rng.below(4) as usize],
                 big: if i % 10 == 3 { (1 + rng.below(6) as usize) << 20 } else { 0 },
                 pipe: i % 10 == 7,
+                by_drop: i % 6 == 5,
             },
         );
     }
